@@ -5,7 +5,7 @@ EXPLANATION = (
     "R1 every path of utils.wrap (signed/unsigned x int64/object carrier), after substitution, is classified in an abstract "
     "modular domain and must normalise to x mod 2^n_word, re-signed at exactly 2^(n_word-1) (strict) by subtracting 2^n_word, with no "
     "narrowing cast before the mask; R2 the overflow handler selects wrap by config and passes the rounded value with the "
-    "destination's own (signed, n_word), dispatch exhaustive over Config's overflow list; R3 the Python-int path is taken for "
+    "destination's own (signed, n_word), dispatch exhaustive over Config's overflow list; the product kernel leaves int64 before its exact result needs more than 64 bits (C19.R1 on mul); R3 the Python-int path is taken for "
     "n_word >= the storage threshold and converts elements with int() before masking; plus the store pipeline (wrap is applied after "
     "rounding, nothing after it). Residual: bit-level behaviour of NumPy &, |, <, where on int64/object arrays (lemmas).")
 ASSUMPTIONS = ["for Python ints and non-overflowing int64: x & (2^n-1) == x mod 2^n; (0<=x<2^n and x>=2^(n-1)) => x | -2^n == x - 2^n"]
@@ -18,3 +18,6 @@ def run(ck):
     pipeline.overflow_dispatch(ck, "C02.R6", "C03.R2", roles)
     pipeline.store_pipeline(ck, "C01.R2", want_bounds=True)
     carriers.threshold_everywhere(ck, "C18.R1")
+    # products stored with wrap into 64+ bit registers: the multiply must not fold modulo 2^64 first
+    from . import widths
+    widths.kernel_widths(ck, "C19.R1", None, names=("mul",))
